@@ -68,6 +68,8 @@ pub struct M {
     pub mode: Mode,
     pub tier: Tier,
     pub n: usize,
+    /// all nodes configured with `algorithms: [plain]`
+    pub plain: bool,
 }
 
 impl M {
@@ -105,6 +107,9 @@ impl Model for M {
             .map(|_| {
                 let mut c = base_config(self.mode, Type::Tap, 0, &[0]);
                 c.switch_timeout = T as u32;
+                if self.plain {
+                    c.crypto.algorithms = vec!["plain".to_string()];
+                }
                 c.peer_timeout = 5; // shorter than the switch timeout: a peer can leave while what was learned from it is still fresh
                 c
             })
@@ -151,7 +156,7 @@ impl Model for M {
                 let kd = key(*tag, if *dst < 2 { MACS[*dst] } else { BCAST });
                 let ks = key(*tag, MACS[*src]);
                 let peers: Vec<usize> = (0..self.n).filter(|j| j != node && s.net.connected(*node, *j)).collect();
-                let learning = self.mode == Mode::Switch;
+                let learning = self.mode == Mode::Switch || self.mode == Mode::Normal; // normal mode on a tap device = switch
                 let expected: Vec<usize> = match s.learned[*node].get(&kd) {
                     Some((p, _)) if learning => vec![*p],
                     _ => peers.clone(),
@@ -242,7 +247,7 @@ impl Model for M {
         // implementation's learned tables must not contain anything the reference does not know (hub/router: nothing at all)
         for r in 0..self.n {
             let cache = s.net.nodes[r].verif_table().verif_cache();
-            if self.mode != Mode::Switch && !cache.is_empty() {
+            if self.mode == Mode::Hub && !cache.is_empty() {
                 return Err(Fail::new("learned_in_non_learning_mode", format!("{} mode: node {} learned {:?}", self.mode, r, cache)).with("mode", format!("{}", self.mode)));
             }
         }
@@ -272,7 +277,7 @@ impl Model for M {
         for r in 0..self.n {
             let cache: Vec<_> = s.net.nodes[r].verif_table().verif_cache().into_iter().filter(|x| x.2 >= now).collect();
             let reference: Vec<_> = s.learned[r].iter().filter(|(_, (_, t))| now <= *t + T).collect();
-            if self.mode == Mode::Switch && cache.len() != reference.len() {
+            if self.mode != Mode::Hub && cache.len() != reference.len() {
                 return Err(Fail::new(
                     "table_differs",
                     format!("node {}: implementation knows {} fresh learned addresses {:?}, reference {} {:?}", r, cache.len(), cache, reference.len(), reference),
@@ -359,8 +364,10 @@ pub fn run_router(c: &RouterCase) -> CaseResult {
 
 pub fn variants(tier: Tier) -> Vec<(String, M, usize)> {
     vec![
-        ("learning_switch".to_string(), M { mode: Mode::Switch, tier, n: 3 }, tier.pick(3, 4)),
-        ("learning_hub".to_string(), M { mode: Mode::Hub, tier: Tier::Quick, n: 3 }, tier.pick(2, 3)),
+        ("learning_switch".to_string(), M { mode: Mode::Switch, tier, n: 3, plain: false }, tier.pick(3, 4)),
+        ("learning_hub".to_string(), M { mode: Mode::Hub, tier: Tier::Quick, n: 3, plain: false }, tier.pick(2, 3)),
+        ("learning_switch_plain".to_string(), M { mode: Mode::Switch, tier: Tier::Quick, n: 3, plain: true }, tier.pick(2, 3)),
+        ("learning_normal_tap".to_string(), M { mode: Mode::Normal, tier: Tier::Quick, n: 3, plain: false }, tier.pick(2, 3)),
     ]
 }
 
